@@ -18,9 +18,10 @@ class Cli(Harness):
         self.parser_serde = z3.Bool('arg_parser_is_serde_xml_rs'); self.sort_name = z3.Bool('arg_sort_is_name')
         self.derive = z3.String('arg_derive'); self.inpath = z3.String('arg_input'); self.outpath = z3.String('arg_output'); self.has_out = z3.Bool('arg_has_output')
         self.read_ok = z3.Bool('env_read_ok'); self.input_kind = z3.Int('env_input_kind')     # 0 well-formed document, 1 reader error, 2 no element
+        self.file_utf8 = z3.Bool('env_file_is_utf8')          # a readable file that is not UTF-8 (the invalid bytes sit where the parser never decodes them)
         self.create_ok = z3.Bool('env_create_ok'); self.write_ok = z3.Bool('env_write_ok')
         self.ioerr = [z3.String('env_ioerr%d' % i) for i in range(3)]
-    def consts(self): return self.fam.consts + [self.parser_serde, self.sort_name, self.derive, self.inpath, self.outpath, self.has_out, self.read_ok, self.input_kind, self.create_ok, self.write_ok] + self.ioerr
+    def consts(self): return self.fam.consts + [self.parser_serde, self.sort_name, self.derive, self.inpath, self.outpath, self.has_out, self.read_ok, self.file_utf8, self.input_kind, self.create_ok, self.write_ok] + self.ioerr
     def domains(self): return dict(self.fam.doms)
     def preconditions(self): return list(self.fam.pre) + [self.input_kind >= 0, self.input_kind <= 2]
     def script(self, kind):
@@ -28,17 +29,25 @@ class Cli(Harness):
         if kind == 1: return [X.Entry(X.ev_start('r', [], 'e0')), X.Entry(X.ev_err('bad'), pos=11)]
         return [X.Entry(X.ev_noise('Comment'))]
     def run(self, m):
-        st = {'kind': None}
+        st = {'kind': None, 'nonutf8': False}
         def args_parse(m_):
             return RStruct('Args', {'parser': REnum('ParserArg', 'SerdeXmlRs' if m.branch(self.parser_serde) else 'QuickXmlDe', []), 'derive': RStr(Frags([self.derive])),
                                     'sort': REnum('SortByArg', 'Name' if m.branch(self.sort_name) else 'Unsorted', []), 'input_path': RStr(Frags([self.inpath])),
                                     'output_path': Some(RStr(Frags([self.outpath]))) if m.branch(self.has_out) else NONE()})
         def read_to_string(m_, path):
             if not m.branch(self.read_ok): return Err(RStruct('IoError', {'disp': Frags([self.ioerr[0]]), 'dbg': 'io'}))
+            if not m.branch(self.file_utf8): st['nonutf8'] = True; return Err(RStruct('IoError', {'disp': 'stream did not contain valid UTF-8', 'dbg': 'io'}))
             k = 0 if m.branch(self.input_kind == 0) else (1 if m.branch(self.input_kind == 1) else 2)
             st['kind'] = k
             return Ok(RStr(Frags([z3.String('file_content')])))
         def reader_from_str(m_, s): return X.reader(self.script(st['kind']))
+        def reader_from_file(m_, path):
+            # Reader::from_file opens the file without any whole-file UTF-8 validation
+            m.effects.append(('read', path.val if isinstance(path, RStr) else path))
+            if not m.branch(self.read_ok): return Err(RStruct('IoError', {'disp': Frags([self.ioerr[0]]), 'dbg': 'io'}))
+            if not m.branch(self.file_utf8): st['nonutf8'] = True
+            st['kind'] = 0 if m.branch(self.input_kind == 0) else (1 if m.branch(self.input_kind == 1) else 2)
+            return Ok(X.reader(self.script(st['kind'])))
         def file_create(m_, path):
             if m.branch(self.create_ok): return Ok(RStruct('File', {'path': path, 'content': ''}))
             return Err(RStruct('IoError', {'disp': Frags([self.ioerr[1]]), 'dbg': 'io'}))
@@ -46,7 +55,7 @@ class Cli(Harness):
             m.effects.append(('write', f.f['path'].val, s))
             if m.branch(self.write_ok): return Ok(UNIT)
             return Err(RStruct('IoError', {'disp': Frags([self.ioerr[2]]), 'dbg': 'io'}))
-        m.env_model = {'args_parse': args_parse, 'read_to_string': read_to_string, 'reader_from_str': reader_from_str, 'file_create': file_create, 'file_write': file_write}
+        m.env_model = {'args_parse': args_parse, 'read_to_string': read_to_string, 'reader_from_str': reader_from_str, 'reader_from_file': reader_from_file, 'file_create': file_create, 'file_write': file_write}
         code = 0
         try: m.call_fn(m.fns['main'], [])
         except ExitEx as x: code = x.code
@@ -60,7 +69,7 @@ class Cli(Harness):
                 opts = m.call_fn(m.impls['Options'][preset], [])
                 opts.f['derive'] = RStr(Frags([self.derive])); opts.f['sort'] = REnum('SortBy', 'XmlName' if m.branch(self.sort_name) else 'Unsorted', [])
                 expected = s_concat(HEADER, m.call_fn(m.impls['Element']['to_serde_struct'], [opts], self_val=res.p[0]).val)
-        return {'code': code, 'effects': effects, 'kind': st['kind'], 'expected': expected,
+        return {'code': code, 'effects': effects, 'kind': st['kind'], 'expected': expected, 'nonutf8': st['nonutf8'],
                 'read_ok': st['kind'] is not None, 'has_out': m.branch(self.has_out), 'create_ok': None, 'write_ok': None}
     def assertions(self, m, out):
         eff = out['effects']; conds = []
@@ -71,7 +80,7 @@ class Cli(Harness):
         creates = [e for e in eff if e[0] == 'create']; writes = [e for e in eff if e[0] == 'write']
         reads = [e for e in eff if e[0] == 'read']
         conds.append(('reads nothing but the named input file, at most once', len(reads) <= 1 and (len(reads) == 0 or SEQ(reads[0][1], Frags([self.inpath])))))
-        input_fault = (not out['read_ok']) or out['kind'] != 0
+        input_fault = (not out['read_ok']) or out['kind'] != 0 or out['nonutf8']
         if input_fault:
             conds.append(('input at fault: exit status 1', out['code'] == 1))
             conds.append(('input at fault: diagnostic on stderr', NOT(SEQ(stderr, ''))))
@@ -100,12 +109,12 @@ class Cli(Harness):
         return conds
     def witnesses(self, m, out):
         return {'exit %d' % out['code']: True, 'to stdout': not out['has_out'] and out['code'] == 0, 'to file': out['has_out'] and out['code'] == 0,
-                'input fault': (not out['read_ok']) or out['kind'] != 0}
+                'input fault': (not out['read_ok']) or out['kind'] != 0 or out['nonutf8']}
     def concretise(self, a):
         am = AssignmentModel(self.consts(), a)
         return {'args': {'parser': 'serde-xml-rs' if a['arg_parser_is_serde_xml_rs'] else 'quick-xml-de', 'derive': a['arg_derive'], 'sort': 'name' if a['arg_sort_is_name'] else 'unsorted',
                          'output': a['arg_output'] if a['arg_has_output'] else None},
-                'input': {'readable': a['env_read_ok'], 'kind': ['well-formed', 'syntax error', 'no element'][a['env_input_kind']], 'doc': X.serialise(am, self.docs[0])},
+                'input': {'readable': a['env_read_ok'], 'utf8': a['env_file_is_utf8'], 'kind': ['well-formed', 'syntax error', 'no element'][a['env_input_kind']], 'doc': X.serialise(am, self.docs[0])},
                 'output_creatable': a['env_create_ok'], 'write_ok': a['env_write_ok']}
     def result_summary(self, m, out, model): return {'code': out['code']}
     def cli_run(self, c, workdir):
@@ -114,7 +123,9 @@ class Cli(Harness):
         inp = os.path.join(workdir, 'in.xml')
         if c['input']['readable']:
             doc = {'well-formed': c['input']['doc'], 'syntax error': '<r><a></b></r>', 'no element': '<!-- nothing -->'}[c['input']['kind']]
-            open(inp, 'w').write(doc)
+            data = doc.encode()
+            if not c['input'].get('utf8', True): data = data + b'<!-- \xff\xfe -->'          # invalid bytes where the parser never decodes them
+            open(inp, 'wb').write(data)
         elif os.path.exists(inp): os.remove(inp)
         args = ['--parser', c['args']['parser'], '--derive', c['args']['derive'], '--sort', c['args']['sort'], inp]
         outp = None
@@ -136,7 +147,7 @@ class Cli(Harness):
         c['write_ok'] = True          # a failing write cannot be forced on a real file system
         code, out, err, content = self.cli_run(c, workdir)
         problems = []
-        fault = (not c['input']['readable']) or c['input']['kind'] != 'well-formed'
+        fault = (not c['input']['readable']) or c['input']['kind'] != 'well-formed' or not c['input'].get('utf8', True)
         if fault:
             if code != 1: problems.append('exit %d' % code)
             if not err: problems.append('no diagnostic')
